@@ -387,6 +387,15 @@ class Oracle:
                 consulted = set(range(len(w.keys)))  # a call could not be attributed to a key: rule not applicable
             for pos, k in enumerate(req):
                 has_val = ov[pos] if pos < len(ov) and ov[pos] is not None else w.keys[k].get("val")
+                if (has_val and served[pos] is not None and w.validator_policy.get("mode") == "current"
+                        and not zombies and k not in self.volatile and not obs.back_in_op):
+                    # the validator in force accepts only the current version: whatever path the request took
+                    # (hit, adoption of a file found on disk, fetch), a file it would reject must not be served
+                    ent = post_files.get(served[pos])
+                    if ent is not None and ent[3] != w.expected_bytes(k) and ent[3] in w.acceptable_bytes(k):
+                        return self._v("19e", "key %d was requested with a validate directive whose validator accepts only "
+                                       "the current version, yet an older version was served (validator not consulted "
+                                       "for a file found on disk?)" % k, obs)
                 if has_val and k in reg and k not in consulted:
                     return self._v("19e", "key %d was cached and requested with a validate directive, but its validator was "
                                    "never consulted (a rejected entry would have been served)" % k, obs)
